@@ -460,3 +460,34 @@ PROPS["C19"] = dict(
                  "equal_icase are required", "empty separators/needles and equal sep/quote/escape characters are outside "
                  "the documented domain and not driven", SAN_ASSUME],
 )
+
+# ----------------------------------------------------------------------------- C03
+PROPS["C03"] = dict(
+    units={"ss": dict(src=["harness/C03_string_sort.cpp"])},
+    quick=[
+        R("ss", "plain", 8, 60),
+        R("ss", "asan", 8, 12),
+        R("ss", "plain", 4, 3, ["big=1"]),
+        R("ss", "asan", 2, 1, ["big=1"]),
+    ],
+    thorough=[
+        R("ss", "plain", 16, 6000, timeout=7200),
+        R("ss", "asan", 16, 1200, timeout=7200),
+        R("ss", "plain", 8, 60, ["big=1"], timeout=7200),
+        R("ss", "asan", 8, 12, ["big=1"], timeout=7200),
+    ],
+    rule="a case = 40 sorts (big=1: 2 sorts of 65535..140000 strings). A sort = one string multiset (10 shapes: "
+         "all-equal, 2-4 values, shared prefix of length 1..40 crossing the 8/16-bit radix and 8-byte boundaries, "
+         "prefix chain, mostly empty strings, length-1 strings, bytes 0x01-0xFF, bytes 0x80-0xFF only, runs of >= 30 "
+         "identical strings with/without extensions, {a,b} strings; suffixes of 1-3 letter texts) of size 0..3000 "
+         "(sizes around 32 and 256 weighted) x representation (uchar*/char*/const variants, each string in its own "
+         "exact-size heap block; std::string; unique_ptr<string>; suffix set) x entry point (public sort_strings[_lcp] "
+         "pointer and vector overloads, insertion_sort, multikey_quicksort, radixsort_CE0/CE2/CE3/CI2/CI3) x memory "
+         "limit (0, 1, 1..30000, k*n + slack-sized offset for the k of every memory_use formula, 1-16 MiB) x with/"
+         "without LCP. Checked: pointer/offset/value multiset unchanged, adjacent order by memcmp+length, every "
+         "lcp[i>=1] exact, canary behind the lcp array. A class is a distinct (entry, repr, memory class, size class, "
+         "shape) tuple.",
+    require=dict(any=["sorts", "sorts_with_memory_limit", "sorts_with_lcp", "sorts_n_ge_65536"]),
+    assumptions=["inputs are NUL-free as the property states; lcp[0] is unspecified by the API and not checked",
+                 "std::string elements are compared as a multiset of values (the sorters may move them)", SAN_ASSUME],
+)
